@@ -143,13 +143,75 @@ def answer (ds : List Series) (q : Query) : String :=
           showLabels k ++ "@" ++ ",".intercalate (pts.map (fun (t, v) => s!"{t}:{showRat v}"))))
         s!"kind=magg fn={showFn a.fn} ser={";".intercalate ser} cls={cls} lat={lat}"
 
+/-! ### binary operator between two operands (Spec/Metrics.lean `evalBin`)
+   query token:  bin!<op>!<0|1 bool>!<start>!<end>!<styleL>!<matchersL>!<aggL|->!<styleR>!<matchersR>!<aggR|->
+   answer:       kind=mbin op=<op> ser={k=<hexv>,…}@<ts>:<num>[/<den>]|<ts>:?,…;… cls=… lat=…      (`?` = not judged) -/
+
+def parseBinOp : String → Option BinOp
+  | "add" => some .add | "sub" => some .sub | "mul" => some .mul | "div" => some .div | "mod" => some .mod
+  | "pow" => some .pow | "eq" => some .eq | "ne" => some .ne | "gt" => some .gt | "lt" => some .lt
+  | "ge" => some .ge | "le" => some .le | "and" => some .and | "or" => some .or | "unless" => some .unless
+  | _ => none
+
+def parseOperand (style ms ag : String) : Option Operand :=
+  if style != "b" && style != "n" then none else
+  let agg? : Option (Option Agg) := if ag == "-" then some none else (parseAgg ag).map some
+  match (ms.splitOn ";").mapM parseMatcher, agg? with
+  | some ms, some ag => some { matchers := ms, agg := ag }
+  | _, _ => none
+
+def parseBinQuery (tok : String) : Option BinQuery :=
+  match tok.splitOn "!" with
+  | ["bin", op, b, a, e, sl, ml, al, sr, mr, ar] =>
+    match parseBinOp op, (if b == "0" then some false else if b == "1" then some true else none), a.toNat?, e.toNat?,
+          parseOperand sl ml al, parseOperand sr mr ar with
+    | some op, some b, some a, some e, some l, some r =>
+      if a ≤ e then some { start := a, end_ := e, op := op, retBool := b, lhs := l, rhs := r } else none
+    | _, _, _, _, _, _ => none
+  | _ => none
+
+inductive AnyQuery where
+  | plain (q : Query)
+  | bin (q : BinQuery)
+
+def parseAnyQuery (tok : String) : Option AnyQuery :=
+  if tok.startsWith "bin!" then (parseBinQuery tok).map .bin else (parseQuery tok).map .plain
+
+def dedupS (l : List String) : List String := l.foldl (fun acc x => if acc.contains x then acc else acc ++ [x]) []
+
+def answerBin (ds : List Series) (q : BinQuery) : String :=
+  match calcInterval (q.end_ - q.start) with
+  | none => "kind=bad-range"
+  | some _ =>
+    let ql := q.lhs.query q
+    let qr := q.rhs.query q
+    let sl := selected ds ql
+    let sr := selected ds qr
+    let cls := ",".intercalate (dedupS (classes ds ql sl ++ classes ds qr sr))
+    let lat := ",".intercalate (dedupS (latitude ql sl ++ latitude qr sr))
+    match evalOperand ds q q.lhs, evalOperand ds q q.rhs with
+    | some l, some r =>
+      if hasDupLabels (l.map (·.1)) || hasDupLabels (r.map (·.1)) then s!"kind=mbin-undefined cls={cls} lat={lat}" else
+      let cls := ",".intercalate (dedupS (classes ds ql sl ++ classes ds qr sr ++ (if binopLabelOrder q l r then ["binop-label-order"] else []) ++
+        (if binopTrailingComma q l r then ["binop-trailing-comma"] else [])))
+      let ser := sortStrings ((evalBin q.op q.retBool l r).map (fun (k, pts) =>
+        showLabels k ++ "@" ++ ",".intercalate ((sortBy (fun a b => a.1 ≤ b.1) pts).map (fun (t, p) => match p with
+          | .val v => s!"{t}:{showRat v}"
+          | .open => s!"{t}:?"))))
+      s!"kind=mbin ser={";".intercalate ser} cls={cls} lat={lat}"
+    | _, _ => s!"kind=mbin-undefined cls={cls} lat={lat}"
+
+def answerAny (ds : List Series) : AnyQuery → String
+  | .plain q => answer ds q
+  | .bin q => answerBin ds q
+
 def me (args : List String) : String :=
   let (ser, r1) := args.span (· != "H")
   let (hist, r2) := (r1.drop 1).span (· != "Q")
   let qs := r2.drop 1
   if r1.isEmpty || r2.isEmpty || qs.isEmpty then "bad-op" else
-  match (parseSeriesList ser).bind (applyHistory · hist), qs.mapM parseQuery with
-  | some ds, some qs => " | ".intercalate (qs.map (answer ds))
+  match (parseSeriesList ser).bind (applyHistory · hist), qs.mapM parseAnyQuery with
+  | some ds, some qs => " | ".intercalate (qs.map (answerAny ds))
   | _, _ => "bad-op"
 
 /-! ### command `mc`: MANY series that share one tag value (cardinality; harness/cmd/corr/e2e_metrics.go execE2EMC)
